@@ -179,6 +179,42 @@ func runC08(r *Run) {
 			return false, okDeps && isParam(a[1], "amount")
 		}, notClawback, isSuccessExit, "nil only where amount ≤ balance − unvested (bypass: not a clawback account)", "the validator can return nil for a clawback account although the amount exceeds balance − unvested")
 		r.Check(len(notClawback) > 0, "R4", fnID(vf)+"#clawback-assert", P.Pos(fnPos(vf)), "account type is asserted", "the validator no longer distinguishes clawback vesting accounts")
+		// shape of the limit: delegatable = balance − unvested, where the subtrahend is exactly the unvested amount
+		// of the bond denom (GetVestingCoins(block time).AmountOf(bondDenom)) with no further arithmetic, and the
+		// minuend is the bank balance of the bond denom
+		okShape, nSub := false, 0
+		eachCall(vf, func(ci CallInfo) {
+			if ci.Name != "Sub" {
+				return
+			}
+			a := ci.Instr.Common().Args
+			if len(a) != 2 {
+				return
+			}
+			minu, subt := backSlice(a[0]), backSlice(a[1])
+			if !minu.HasCall(func(g CallInfo) bool { return g.Name == "GetBalance" }) {
+				return
+			}
+			nSub++
+			arith := func(s *Slice) bool {
+				return s.Any(func(v ssa.Value) bool {
+					c, ok := v.(*ssa.Call)
+					if !ok {
+						return false
+					}
+					switch callInfo(c).Name {
+					case "Add", "Sub", "Mul", "Quo", "Neg", "MaxInt", "MinInt", "Max", "Min", "AddRaw", "SubRaw", "SafeSub", "GetDelegatedFree", "GetDelegatedVesting", "GetVestedCoins", "GetLockedUpCoins", "GetUnlockedCoins", "LockedCoins":
+						return true
+					}
+					return false
+				})
+			}
+			if subt.HasCall(func(g CallInfo) bool { return g.Name == "GetVestingCoins" }) && subt.HasCall(func(g CallInfo) bool { return g.Name == "AmountOf" }) && !arith(subt) && !minu.HasCall(func(g CallInfo) bool { return g.Name == "GetVestingCoins" }) && !arith(minu) {
+				okShape = true
+			}
+		})
+		r.Check(okShape && nSub == 1, "R4", fnID(vf)+"#delegatable-shape", P.Pos(fnPos(vf)), "delegatable = GetBalance(bond denom) − GetVestingCoins(block time).AmountOf(bond denom)",
+			"the delegation limit is no longer exactly balance − unvested: something else is added to or subtracted from one of the two operands (e.g. tracked delegations), so unvested coins can be bonded")
 	} else {
 		r.Bad("R4", "anchor/validateDelegationAmountNotUnvested", "", "not found")
 	}
